@@ -557,6 +557,7 @@ func Run(o *hx.Out, g *hx.Rng, tier string) {
 	memnet.InertScheduler()
 	kcp.SetEntropy(&memnet.RngReader{G: g.Fork()})
 	o.Res.Rule = "one case per (cipher, FEC) configuration; every op line is one injected datagram (classes and verdicts in the distribution)"
+	g = g.Fork() // hx.NewRng(seed) streams of consecutive seeds are shifted copies of each other
 	x := &runner{o: o, g: g, tier: tier}
 	for _, c := range configs() {
 		x.runConfig(c)
